@@ -163,9 +163,10 @@ def lean_audit(pid, mods):
     rc, out, dt = run(["lake", "env", "lean", path], cwd=LEAN, timeout=1800)
     res = {}
     # output: 'name' depends on axioms: [a, b]   |   'name' does not depend on any axioms
-    for m in re.finditer(r"'([^']+)' depends on axioms: \[([^\]]*)\]", out.replace("\n ", " ")):
+    # (theorem names may themselves end in primes)
+    for m in re.finditer(r"'(\S+)' depends on axioms: \[([^\]]*)\]", out.replace("\n ", " ")):
         res[m.group(1)] = [a.strip() for a in m.group(2).replace("\n", " ").split(",") if a.strip()]
-    for m in re.finditer(r"'([^']+)' does not depend on any axioms", out):
+    for m in re.finditer(r"'(\S+)' does not depend on any axioms", out):
         res[m.group(1)] = []
     bad = {}
     for n in names:
@@ -307,6 +308,12 @@ def run_gens(cfg):
 def check(pid, tier, seed, replay=None):
     t0 = time.time()
     cfg = PROPS[pid]
+    try:
+        dirty = subprocess.run(["git", "-C", REPO, "status", "--short"], capture_output=True, text=True, timeout=60).stdout.strip()
+        if dirty:
+            log("note: /repo working tree differs from HEAD (the check runs against the working tree):\n  " + dirty.replace("\n", "\n  "))
+    except Exception:
+        pass
     outdir = os.path.join(WORK, pid)
     os.makedirs(outdir, exist_ok=True)
     broken = []          # ties that no longer check: (name, detail)
